@@ -271,6 +271,10 @@ def wl_builtin(ctx, rng, i):
         o["x_custom_prop"] = rng.choice(["s", 5, 1.5, True, ["a", 1], {"k": {"n": [1, 2]}}, "2020-01-01T00:00:00.000Z"])
         if ver == "2.0" or rng.random() < 0.5:
             o["x_second"] = {"type": "nested-type-key", "id": 5}
+        if rng.random() < 0.5:
+            # a key/value pair that also occurs at top level, nested inside a custom dictionary and a list of dictionaries
+            dup = {k: o[k] for k in list(o)[:6] if isinstance(o[k], (str, int, bool)) and k not in ("x_custom_prop",)}
+            o["x_nested_twin"] = {"inner": dup, "items": [dup, {"zz": 1}]} if dup else {"a": 1}
     if validator.validate({k: v for k, v in o.items() if not k.startswith("x_")}, ver):
         ctx.skip("generator error")
         return
@@ -299,6 +303,13 @@ def wl_custom(ctx, rng, i):
             o = gcustom.file_with_ext(g)
         elif kind == 4 and ver == "2.0":
             o = gcustom.observed20_with_sensor(g)
+        elif kind == 5 and i % 2 == 0 and ver == "2.1":
+            # a 2.1 bundle may carry 2.0 objects next to 2.1 ones: each member keeps its own version's class
+            g20 = ObjGen(rng, "2.0", hostile=True, ts_max_digits=6)
+            members = [g20.make(rng.choice(["identity", "malware", "indicator", "relationship"]), "random"), g.make("identity", "random"),
+                       g20.make("marking-definition", "min"), g.make("domain-name", "random")]
+            rng.shuffle(members)
+            o = g.bundle(members=members)
         elif kind == 5:
             # bundle with a registered custom member, an unregistered custom member kept as a dict, and a plain member
             members = [gcustom.widget(g), g.make("identity", "random"),
